@@ -31,6 +31,8 @@ MANIFEST = {
             'python -O (property stated for the default mode). Not refused: the Runtime.threshold SETTER and Runtime() '
             'constructor accept any t (only setup() validates); negative -T passes the assert; an extension field that is too '
             'small (e.g. SecFld(4) with m >= 4, t > 0) is refused by an assert (TODO in the source) rather than lifted. '
+            'finfields.find_irreducible is memoised by the check (pure function). Large orders q^d (q in {1031, 65537, 2^31-1}, above '
+            'factor_prime_power\'s trial-division range) are restricted to degrees whose find_irreducible is fast. '
             'Integer arguments >= 0 only. NumPy array out-conversion is not exercised (subprocesses use /venv).',
     'technique': 'Coq proof over decision-function model with oracles + vm_compute correspondence + multi-configuration subprocess runs',
 }
@@ -345,11 +347,16 @@ def run_sub(m, t, k):
 def run(ctx):
     sys.argv = [sys.argv[0], '--no-log']
     from mpyc.runtime import mpc
-    from mpyc import gfpx
+    from mpyc import gfpx, finfields
+    import functools
+    if not hasattr(finfields.find_irreducible, 'cache_info'):
+        # pure function; memoised so that repeated argument combinations on one large field stay cheap
+        finfields.find_irreducible = functools.cache(finfields.find_irreducible)
     ok = ctx.build() and ctx.check_props()
     rng = ctx.rng
     ctx.rule = ('case = one SecFld(order, modulus, char, ext_deg, min_order) call (single-argument sweeps, order x other, all '
-                'pairs, random 5-tuples from boundary pools) or one (m, t, sec_param) process configuration; non-trivial when '
+                'pairs, random 5-tuples from boundary pools; large prime powers q^d, q in {1031, 65537, 2^31-1}, composite d incl. 6, 9, 12, '
+                'in the combinations order / order+char / order+ext_deg / order+min_order / char+ext_deg / inconsistent) or one (m, t, sec_param) process configuration; non-trivial when '
                 'at least two arguments interact or the call is refused / lifted')
     ctx.explanation = ('decision-function model proved in Coq; evaluated on each argument combination with oracle tables '
                        'from independent Python number theory and compared exactly with mpc.SecFld; every successful call '
@@ -398,6 +405,23 @@ def run(ctx):
     cases.append((8, ('str', [1, 1, 1]), None, None, None))
     cases.append((None, ('str', [1, 1, 1]), None, 10, 100))
     cases.append((None, ('str', [1, 1, 1]), None, 3, None))
+    # large prime powers q**d with q above factor_prime_power's trial-division range (q >= 2**10: the order is factored by
+    # integer roots, composite d exercises the exponent accumulation); only (q, d) whose find_irreducible is fast
+    # (e.g. (2**31-1, 4) takes minutes inside mpyc) -- the types are only constructed, no arithmetic
+    big_pd = [(1031, d) for d in (1, 2, 3, 4, 6, 8, 9, 12)]
+    big_pd += [(65537, d) for d in ctx.n((1, 2, 4, 6, 8), (1, 2, 3, 4, 6, 8, 9, 12))]
+    big_pd += [(2**31 - 1, d) for d in (1, 2, 3, 6, 9)]
+    big_cases = []
+    for (bp, bd) in big_pd:
+        bq = bp ** bd
+        big_cases += [(bq, None, None, None, None), (bq, None, bp, None, None), (bq, None, None, bd, None),
+                      (bq, None, None, None, bq), (None, None, bp, bd, None), (bq, None, bp, bd, bq),
+                      (bq, None, None, bd + 1, None), (bq, None, None, None, bq + 1), (bq, None, 1033, None, None),
+                      (bq + 2, None, None, None, None)]
+        if bd > 1:
+            big_cases += [(bq, None, None, bd // (2 if bd % 2 == 0 else 3), None)]
+    big_set = set(json.dumps(c) for c in big_cases)
+    cases += big_cases
     seen, uniq = set(), []
     for c in cases:
         k = json.dumps(c)
@@ -421,7 +445,7 @@ def run(ctx):
     for (order, md, char, ext_deg, min_order) in cases:
         # keep finfields.find_irreducible cheap (it is very slow for large p: SecFld(ext_deg=3, min_order=2**70) takes
         # minutes): huge min_order only for prime fields or char in {2, 3} with the degree left to the code
-        if min_order is not None and min_order > 2**16:
+        if min_order is not None and min_order > 2**16 and json.dumps((order, md, char, ext_deg, min_order)) not in big_set:
             if not (md is None and ((char is None and not (truthy(ext_deg) and ext_deg > 1)) or (char in (2, 3) and ext_deg is None))):
                 skipped += 1
                 continue
